@@ -51,11 +51,12 @@ package random
 //@   invariant #1 pos:  0 <= mr_idx && mr_idx <= mr_n
 //@   invariant #1 done: forall hk:Str :: forall j:Int :: has(PR, hk) && mrpos(hk) < mr_idx && 0 <= j && j < len(get(PR, hk).Requests)
 //@                         ==> has(rqueue, HOF(hk), keeper.REQIDQ(get(PR, hk).Requests[j]))
-//@   invariant #2 pos:  1 <= mr_idx && mr_idx <= mr_n && rangeindex >= 0 - 1 && rangeindex < len(requests.Requests)
-//@   invariant #2 cur:  l_height == mr_seq[mr_idx - 1] && has(PR, l_height) && requests == get(PR, l_height)
+//@   invariant #2 pos:  1 <= mr_idx && mr_idx <= mr_n && rangeindex >= 0 - 1 && rangeindex < len(rangeover)
+// (the inner loop walks the request list filed under the height key the map walk is at - no local names needed)
+//@   invariant #2 cur:  has(PR, mr_seq[mr_idx - 1]) && rangeover == get(PR, mr_seq[mr_idx - 1]).Requests
 //@   invariant #2 done: forall hk:Str :: forall j:Int :: has(PR, hk) && mrpos(hk) < mr_idx - 1 && 0 <= j && j < len(get(PR, hk).Requests)
 //@                         ==> has(rqueue, HOF(hk), keeper.REQIDQ(get(PR, hk).Requests[j]))
-//@   invariant #2 part: forall j:Int :: 0 <= j && j <= rangeindex ==> has(rqueue, HOF(l_height), keeper.REQIDQ(requests.Requests[j]))
+//@   invariant #2 part: forall j:Int :: 0 <= j && j <= rangeindex ==> has(rqueue, HOF(mr_seq[mr_idx - 1]), keeper.REQIDQ(rangeover[j]))
 //@   ensures all_queued: forall hk:Str :: forall j:Int :: has(PR, hk) && 0 <= j && j < len(get(PR, hk).Requests)
 //@                         ==> has(rqueue, HOF(hk), keeper.REQIDQ(get(PR, hk).Requests[j]))
 //@ end
